@@ -90,6 +90,45 @@ func (e *Engine) typeSetOf(v ssa.Value, at *ssa.BasicBlock, seen map[ssa.Value]b
 		return s
 	case *ssa.UnOp:
 		if x.Op == token.MUL {
+			// field of a struct local that is only assigned as a whole or field by field
+			if fa, ok := x.X.(*ssa.FieldAddr); ok {
+				if al, ok := fa.X.(*ssa.Alloc); ok {
+					okAll, n := true, 0
+					for _, ref := range *al.Referrers() {
+						switch u := ref.(type) {
+						case *ssa.FieldAddr:
+							for _, uu := range *u.Referrers() {
+								if st, ok := uu.(*ssa.Store); ok && st.Addr == ssa.Value(u) {
+									if u.Field == fa.Field {
+										n++
+										s.merge(e.typeSetOf(st.Val, nil, seen, depth+1))
+									}
+								} else if _, isLoad := uu.(*ssa.UnOp); !isLoad {
+									okAll = false
+								}
+							}
+						case *ssa.Store:
+							if u.Addr != ssa.Value(al) {
+								okAll = false
+								break
+							}
+							n++
+							ts, ok := e.structFieldTypes(u.Val, fa.Field, seen, depth+1)
+							if !ok {
+								okAll = false
+							}
+							s.merge(ts)
+						case *ssa.UnOp:
+						default:
+							okAll = false
+						}
+					}
+					if okAll && n > 0 {
+						return s
+					}
+					s = typeSet{}
+				}
+			}
 			if cell := cellOf(x.X); cell != nil {
 				stores := e.storesTo(cell)
 				if stores == nil {
@@ -111,6 +150,10 @@ func (e *Engine) typeSetOf(v ssa.Value, at *ssa.BasicBlock, seen map[ssa.Value]b
 		}
 	case *ssa.Call:
 		if ts, ok := e.callResultTypes(x, at, seen, depth); ok {
+			return ts
+		}
+	case *ssa.Field:
+		if ts, ok := e.structFieldTypes(x.X, x.Field, seen, depth+1); ok {
 			return ts
 		}
 	case *ssa.Parameter:
@@ -319,4 +362,207 @@ func (e *Engine) callResultTypes(c *ssa.Call, at *ssa.BasicBlock, seen map[ssa.V
 		s.merge(e.typeSetOf(ret.Results[0], b, seen, depth+1))
 	}
 	return s, true
+}
+
+// structFieldTypes: the possible dynamic types of field number field of the struct value sv, when sv is a struct
+// literal of this activation or the (first) result of a module function that returns struct literals: the
+// types stored into that field of each literal (nil where a literal leaves the field out).
+func (e *Engine) structFieldTypes(sv ssa.Value, field int, seen map[ssa.Value]bool, depth int) (typeSet, bool) {
+	var s typeSet
+	if depth > 6 {
+		return s, false
+	}
+	fromLiteral := func(v ssa.Value) bool {
+		switch y := v.(type) {
+		case *ssa.Const:
+			s.hasNil = true // zero value of the struct
+			return true
+		case *ssa.UnOp:
+			al, ok := y.X.(*ssa.Alloc)
+			if !ok || y.Op != token.MUL {
+				return false
+			}
+			n := 0
+			for _, ref := range *al.Referrers() {
+				switch u := ref.(type) {
+				case *ssa.FieldAddr:
+					if u.Field != field {
+						continue
+					}
+					for _, uu := range *u.Referrers() {
+						if st, ok := uu.(*ssa.Store); ok && st.Addr == ssa.Value(u) {
+							n++
+							s.merge(e.typeSetOf(st.Val, nil, seen, depth+1))
+						} else if _, isLoad := uu.(*ssa.UnOp); !isLoad {
+							return false
+						}
+					}
+				case *ssa.UnOp:
+				case *ssa.Store:
+					if u.Addr == ssa.Value(al) {
+						return false // whole-struct assignment: not followed
+					}
+				default:
+					return false
+				}
+			}
+			if n == 0 {
+				s.hasNil = true
+			}
+			return true
+		}
+		return false
+	}
+	var call *ssa.Call
+	switch y := sv.(type) {
+	case *ssa.Extract:
+		if c, ok := y.Tuple.(*ssa.Call); ok && y.Index == 0 {
+			call = c
+		}
+	case *ssa.Call:
+		call = y
+	default:
+		return s, fromLiteral(sv)
+	}
+	if call == nil {
+		return s, false
+	}
+	callee := call.Call.StaticCallee()
+	if callee == nil || callee.Blocks == nil || !strings.HasPrefix(fnPkgPath(callee), modPath) {
+		return s, false
+	}
+	for _, b := range callee.Blocks {
+		if len(b.Instrs) == 0 || b == callee.Recover {
+			continue
+		}
+		ret, ok := b.Instrs[len(b.Instrs)-1].(*ssa.Return)
+		if !ok || len(ret.Results) == 0 {
+			continue
+		}
+		if !fromLiteral(ret.Results[0]) {
+			return s, false
+		}
+	}
+	return s, true
+}
+
+// producers: the values a local value stands for, looking through local cells (all stores), phis, struct locals
+// assigned as a whole or field by field, and fields of struct literals returned by module functions.
+func (e *Engine) producers(v ssa.Value, seen map[ssa.Value]bool, depth int) []ssa.Value {
+	if seen[v] || depth > 10 {
+		return nil
+	}
+	seen[v] = true
+	var out []ssa.Value
+	fieldOf := func(sv ssa.Value, field int) ([]ssa.Value, bool) {
+		var res []ssa.Value
+		var fromLit func(x ssa.Value) bool
+		fromLit = func(x ssa.Value) bool {
+			switch y := x.(type) {
+			case *ssa.Const:
+				res = append(res, ssa.NewConst(nil, types.Typ[types.UntypedNil]))
+				return true
+			case *ssa.UnOp:
+				al, ok := y.X.(*ssa.Alloc)
+				if !ok || y.Op != token.MUL {
+					return false
+				}
+				n := 0
+				for _, ref := range *al.Referrers() {
+					switch u := ref.(type) {
+					case *ssa.FieldAddr:
+						if u.Field != field {
+							continue
+						}
+						for _, uu := range *u.Referrers() {
+							if st, ok := uu.(*ssa.Store); ok && st.Addr == ssa.Value(u) {
+								n++
+								res = append(res, e.producers(st.Val, seen, depth+1)...)
+							}
+						}
+					case *ssa.Store:
+						if u.Addr == ssa.Value(al) {
+							n++
+							if !fromLitOrCall(e, u.Val, field, seen, depth, &res, fromLit) {
+								return false
+							}
+						}
+					}
+				}
+				if n == 0 {
+					res = append(res, ssa.NewConst(nil, types.Typ[types.UntypedNil]))
+				}
+				return true
+			}
+			return false
+		}
+		ok := fromLitOrCall(e, sv, field, seen, depth, &res, fromLit)
+		return res, ok
+	}
+	switch x := v.(type) {
+	case *ssa.Phi:
+		for _, op := range x.Edges {
+			out = append(out, e.producers(op, seen, depth+1)...)
+		}
+		return out
+	case *ssa.Field:
+		if res, ok := fieldOf(x.X, x.Field); ok {
+			return res
+		}
+	case *ssa.UnOp:
+		if x.Op == token.MUL {
+			if fa, ok := x.X.(*ssa.FieldAddr); ok {
+				if al, ok := fa.X.(*ssa.Alloc); ok {
+					ld := &ssa.UnOp{Op: token.MUL, X: al}
+					if res, ok := fieldOf(ld, fa.Field); ok {
+						return res
+					}
+				}
+			}
+			if cell := cellOf(x.X); cell != nil {
+				stores := e.storesTo(cell)
+				if len(stores) > 0 {
+					for _, st := range stores {
+						out = append(out, e.producers(st.Val, seen, depth+1)...)
+					}
+					return out
+				}
+			}
+		}
+	}
+	return []ssa.Value{v}
+}
+
+func fromLitOrCall(e *Engine, sv ssa.Value, field int, seen map[ssa.Value]bool, depth int, res *[]ssa.Value, fromLit func(ssa.Value) bool) bool {
+	var call *ssa.Call
+	switch y := sv.(type) {
+	case *ssa.Extract:
+		if c, ok := y.Tuple.(*ssa.Call); ok && y.Index == 0 {
+			call = c
+		}
+	case *ssa.Call:
+		call = y
+	default:
+		return fromLit(sv)
+	}
+	if call == nil {
+		return false
+	}
+	callee := call.Call.StaticCallee()
+	if callee == nil || callee.Blocks == nil || !strings.HasPrefix(fnPkgPath(callee), modPath) {
+		return false
+	}
+	for _, b := range callee.Blocks {
+		if len(b.Instrs) == 0 || b == callee.Recover {
+			continue
+		}
+		ret, ok := b.Instrs[len(b.Instrs)-1].(*ssa.Return)
+		if !ok || len(ret.Results) == 0 {
+			continue
+		}
+		if !fromLit(ret.Results[0]) {
+			return false
+		}
+	}
+	return true
 }
